@@ -12,9 +12,21 @@ EXTENDS Kad, TraceKit
 
 VARIABLES l, bad, notes,
           cfg,       \* [q, max, allreach] of the running scenario
-          seen       \* C22 order-independence: (connected, reachable, radius) -> depth seen in this scenario
+          seen,      \* C22 order-independence: (connected, reachable, radius) -> depth seen in this scenario
+          win        \* C23 under churn: the window of the running gated call (see below)
 
-tvars == <<vars, l, bad, notes, cfg, seen>>
+tvars == <<vars, l, bad, notes, cfg, seen, win>>
+
+\* A gated ClosestPeer(s) call is logged as: "wbegin" (the call starts), the events that happened
+\* while the walk was held (ordinary events carrying `during`), then the "closest"/"closestn" event
+\* with the answer and `conc`.  The window accumulates, over the states observed from wbegin on,
+\*   tc / ac  the peers connected throughout / at some point,
+\*   tr / ar  the same for the connected reachable peers.
+NoWin == [on |-> FALSE, tc |-> {}, ac |-> {}, tr |-> {}, ar |-> {}]
+WinOpen(oc, rc) == [on |-> TRUE, tc |-> oc, ac |-> oc, tr |-> rc, ar |-> rc]
+WinAdd(w, oc, rc) == IF w.on THEN [on |-> TRUE, tc |-> w.tc \cap oc, ac |-> w.ac \cup oc, tr |-> w.tr \cap rc, ar |-> w.ar \cup rc]
+                     ELSE w
+Gated(e, w) == Has(e, "conc") /\ e.conc /\ w.on
 
 \* thresholds the constructor derives from Options.BinMaxPeers (0: package defaults)
 OverOf(binmax) == IF binmax <= 0 THEN 20
@@ -61,12 +73,13 @@ ResClass(e) == IF e.err = "" THEN "peer" ELSE IF e.err \in {"wantself", "notfoun
 (***************************************************************************)
 (* Verdict clauses.                                                        *)
 (***************************************************************************)
-Verdict(e, pre, post, c0, sn) ==
+Verdict(e, pre, post, c0, sn, w0) ==
   LET oc  == ToSet(e.st.conn)                  \* the peers the topology reports as connected
       ok  == ToSet(e.st.known)
       rc  == TRC(oc, post.pub, c0)
       d   == e.st.depth
       key == [c |-> oc, r |-> rc, rad |-> post.radius]
+      w   == WinAdd(w0, oc, rc)
   IN
      Clause("no_panic", ~(Has(e, "panicked") /\ e.panicked))
   \* ---- C22: the depth envelope, clause by clause of the statement
@@ -96,27 +109,44 @@ Verdict(e, pre, post, c0, sn) ==
                                       TRC(pre.known, pre.pub, c0), c0.max, c0.q))
       ELSE <<>>)
   \o (IF e.op = "force" THEN Clause("C24:force_disconnect_result", e.err = "") ELSE <<>>)
-  \* ---- C23: closest peer(s)
-  \o (IF e.op = "closest"
+  \* ---- C23: closest peer(s); a call no event overlapped: the statement as it stands
+  \o (IF e.op = "closest" /\ ~Gated(e, w)
       THEN LET E == Eligible(oc, rc, ToSet(e.skip), e.filt)
            IN Clause("C23:closest_is_xor_nearest_eligible",
                      ClosestOK(ResClass(e), e.peer, e.t, E, e.incl /\ post.selfPub, e.incl))
       ELSE <<>>)
-  \o (IF e.op = "closestn"
+  \o (IF e.op = "closestn" /\ ~Gated(e, w)
       THEN LET E == Eligible(oc, rc, ToSet(e.skip), e.filt)
                ps == e.peers
            IN    Clause("C23:peers_distinct_nondecreasing_distance",
                         \A i, j \in DOMAIN ps : i < j => ps[i] # ps[j] /\ Closer(e.t, ps[i], ps[j]))
               \o Clause("C23:peers_are_the_closest_eligible", e.err = "" /\ ps = ClosestN(e.t, e.n, E))
       ELSE <<>>)
+  \* ---- C23 while peers connect / disconnect during the call: every linearisation is legal, so the
+  \* answer is judged against the eligible peers connected throughout (Ethr) and at some point (Eany)
+  \o (IF e.op = "closest" /\ Gated(e, w)
+      THEN LET Ethr == Eligible(w.tc, w.tr, ToSet(e.skip), e.filt)
+               Eany == Eligible(w.ac, w.ar, ToSet(e.skip), e.filt)
+           IN Clause("C23:churn_closest_connected_during_call_and_nearest_of_connected_throughout",
+                     ConcClosestOK(ResClass(e), e.peer, e.t, Ethr, Eany, e.incl /\ post.selfPub, e.incl))
+      ELSE <<>>)
+  \o (IF e.op = "closestn" /\ Gated(e, w)
+      THEN LET Ethr == Eligible(w.tc, w.tr, ToSet(e.skip), e.filt)
+               Eany == Eligible(w.ac, w.ar, ToSet(e.skip), e.filt)
+           IN    Clause("C23:churn_peers_distinct_nondecreasing_among_connected_throughout",
+                        ConcOrderOK(e.peers, e.t, Ethr))
+              \o Clause("C23:churn_peers_connected_during_call_and_nearest_of_connected_throughout",
+                        e.err = "" /\ ConcClosestNOK(e.peers, e.t, e.n, Ethr, Eany))
+      ELSE <<>>)
 
 (***************************************************************************)
 (* Conformance notes: implementation-shaped predictions, never a verdict.  *)
 (***************************************************************************)
-NotesOf(e, pre, post, c0) ==
+NotesOf(e, pre, post, c0, w0) ==
   LET oc == ToSet(e.st.conn)
       ok == ToSet(e.st.known)
       rc == TRC(oc, post.pub, c0)
+      w  == WinAdd(w0, oc, rc)
   IN Clause("known_set_as_modelled", ok = post.known)
   \o Clause("depth_as_recalcDepth", e.st.depth = post.depth)
   \o Clause("snapshot_views_agree", e.st.snapd = e.st.depth /\ e.st.snapk = Cardinality(ok))
@@ -129,12 +159,22 @@ NotesOf(e, pre, post, c0) ==
                       /\ ImplOverSaturated(e.p[1], TRC(pre.conn, pre.pub, c0), pre.known,
                                            TRC(pre.known, pre.pub, c0), c0.max, c0.q)))
       ELSE <<>>)
-  \o (IF e.op = "closest"
+  \o (IF e.op = "closest" /\ ~Gated(e, w)
       THEN LET a == ImplClosest(e.t, oc, rc, ToSet(e.skip), e.filt, e.incl, post.selfPub)
            IN Clause("closest_as_scan", ResClass(e) = a.res /\ (a.res = "peer" => e.peer = a.peer))
       ELSE <<>>)
+  \* a gated call: every gate was reached; a single walk looks at no peer twice and at every
+  \* peer that stayed connected (copy-on-write slices: a walk sees each bin as it was on entry)
+  \o (IF e.op \in {"closest", "closestn"} /\ Gated(e, w)
+      THEN    Clause("gates_all_reached", e.left = 0)
+           \o (IF e.op = "closest"
+               THEN    Clause("walk_visits_distinct", \A i, j \in DOMAIN e.seen : i # j => e.seen[i] # e.seen[j])
+                    \o Clause("walk_visits_every_peer_connected_throughout", w.tr \subseteq ToSet(e.seen))
+                    \o Clause("walk_visits_only_peers_connected_during_call", ToSet(e.seen) \subseteq w.ar)
+               ELSE <<>>)
+      ELSE <<>>)
 
-TInit == /\ l = 1 /\ bad = <<>> /\ notes = <<>> /\ seen = {}
+TInit == /\ l = 1 /\ bad = <<>> /\ notes = <<>> /\ seen = {} /\ win = NoWin
          /\ cfg = [q |-> 4, max |-> 20, allreach |-> FALSE]
          /\ conn = {} /\ known = {} /\ pub = {} /\ radius = MaxPO /\ prot = {} /\ selfPub = FALSE
          /\ depth = 0 /\ stale = FALSE /\ res = [op |-> "init"]
@@ -145,10 +185,14 @@ TStep ==
          c0   == IF e.op = "reset" THEN CfgOf(e) ELSE cfg
          post == Post(e, M, c0)
          sn   == IF e.op = "reset" THEN {} ELSE seen
-         cs   == Verdict(e, M, post, c0, sn)
-         ns   == NotesOf(e, M, post, c0)
+         w0   == IF e.op \in {"reset", "fresh"} THEN NoWin ELSE win
+         cs   == Verdict(e, M, post, c0, sn, w0)
+         ns   == NotesOf(e, M, post, c0, w0)
          oc   == ToSet(e.st.conn)
      IN /\ l' = l + 1
+        /\ win' = IF e.op = "wbegin" THEN WinOpen(oc, TRC(oc, post.pub, c0))
+                  ELSE IF e.op \in {"closest", "closestn"} /\ ~Has(e, "during") THEN NoWin
+                  ELSE WinAdd(w0, oc, TRC(oc, post.pub, c0))
         /\ cfg' = c0
         /\ bad' = IF cs = <<>> THEN bad ELSE Append(bad, BadRec(l, e, cs))
         /\ notes' = IF ns = <<>> \/ Len(notes) >= 40 THEN notes
